@@ -676,7 +676,11 @@ static void h_report(const char *name, int tmo, ssize_t rc, int64_t t0, int b0, 
 	       cr_blocked_forever > b0 ? " BLOCKED-FOREVER" : "", c ? c->is_connected : -1);
 }
 
-static void h_call(qb_ipcc_connection_t *c, const char *api, int tmo)
+/* `shown` = the timeout of the op line; `tmo` = the one handed to the library (they differ only in
+ * dry runs of a wait-for-ever call: with a live, idle server such a call rightly never returns,
+ * so the dry run -- whose only purpose is the server's call list -- waits DRY_PATIENCE_MS) */
+#define DRY_PATIENCE_MS 500
+static void h_call2(qb_ipcc_connection_t *c, const char *api, int tmo, int shown)
 {
 	int64_t t0; int b0; int a = 0;
 	ssize_t rc;
@@ -689,8 +693,9 @@ static void h_call(qb_ipcc_connection_t *c, const char *api, int tmo)
 	else if (!strcmp(api, "event_recv")) rc = c_event_recv(c, tmo, &a);
 	else if (!strcmp(api, "is_connected")) rc = qb_ipcc_is_connected(c);
 	else rc = -EINVAL;
-	h_report(api, tmo, rc, t0, b0, c);
+	h_report(api, shown, rc, t0, b0, c);
 }
+static void h_call(qb_ipcc_connection_t *c, const char *api, int tmo) { h_call2(c, api, tmo, tmo); }
 
 /* sdeath T PRE API TMO S : PRE = preparation letters before arming (E: sendv_recv events 2 so that
  * events are queued, N: send a request that gets no response, -: nothing); then the forked server
@@ -737,7 +742,7 @@ static void server_death_case(enum qb_ipc_type type, const char *pre, const char
 		sh->s_armed = 1;
 	}
 	cr_vclock_ms = 0;
-	h_call(c, api, tmo);
+	h_call2(c, api, (dry && tmo < 0) ? DRY_PATIENCE_MS : tmo, tmo);
 	if (dry) {
 		cr_real_sleep_us(20000);
 		sh->s_armed = 0;
